@@ -56,21 +56,33 @@ def _dropped_binding_class(codemod, before, after1):
     if new and new <= chained:
         return f"kf_chained_assignment_target_dropped:{name}"
     # names assigned in scope S and loaded inside a function nested in (or other than) S
+    parent = {}
+
     def scopes(node, cur, acc):
         for ch in ast.iter_child_nodes(node):
             if isinstance(ch, (ast.FunctionDef, ast.AsyncFunctionDef, ast.Lambda)):
+                parent[ch] = cur
                 scopes(ch, ch, acc)
             else:
                 if isinstance(ch, ast.Name):
                     acc.append((ch.id, type(ch.ctx).__name__, cur))
                 scopes(ch, cur, acc)
+
+    def nested_in(inner, outer):
+        while inner in parent:
+            inner = parent[inner]
+            if inner is outer:
+                return True
+        return False
     acc = []
     scopes(tree, tree, acc)
     cross = set()
     for nm in new:
         stores = {sc for (i, c, sc) in acc if i == nm and c == "Store"}
         loads = {sc for (i, c, sc) in acc if i == nm and c == "Load"}
-        if stores and (loads - stores):
+        # the known defect: the binding of scope S is dropped although a scope NESTED IN S still reads the name
+        # (two sibling functions that happen to use the same local name are not that)
+        if any(nested_in(ld, st) for ld in loads for st in stores):
             cross.add(nm)
     if new and new <= cross:
         return f"kf_binding_read_from_nested_scope_dropped:{name}"
@@ -544,11 +556,22 @@ def run_line_filter_round(ctx, jobs, outs, prop):
                 text = base + "\n" + base
                 if not e2e.parses(text):
                     continue
-                lst = derived.setdefault(o["codemod"], [])
-                if len(lst) < (3 if ctx.quick() else 12):
-                    lst.append((text, lines[0], lines[0] + base.count("\n") + 1))
+                # programs that were clean in the first round come first: a program that already shows a known finding
+                # would absorb whatever the line filter adds
+                a1 = s["after1"].get(f)
+                ub, ua = e2e.unresolved(before), e2e.unresolved(a1)
+                clean = e2e.parses(a1) and ub is not None and ua is not None and ua <= ub
+                derived.setdefault(o["codemod"], []).append((not clean, len(text), text, lines[0], lines[0] + base.count("\n") + 1))
+                # the same two copies, each inside its own function: a name bound by one copy does not resolve in the other
+                # (the oracle is flow-insensitive: at module level the second copy's binding would hide a loss in the first)
+                import textwrap
+                n = base.count("\n")
+                ftext = "def _first_copy():\n" + textwrap.indent(base, "    ") + "\ndef _second_copy():\n" + textwrap.indent(base, "    ")
+                if e2e.parses(ftext):
+                    derived[o["codemod"]].append((not clean, len(text), ftext, lines[0] + 1, lines[0] + n + 3))
     jobs2 = []
-    for cm, lst in sorted(derived.items()):
+    for cm, cands in sorted(derived.items()):
+        lst = [(t, l1, l2) for (_, _, t, l1, l2) in sorted(cands)[: (4 if ctx.quick() else 16)]]
         subs = []
         for i, (text, l1, l2) in enumerate(lst):
             for label, inc, exc in (("line_excluded_first", (), (f"d{i}.py:{l1}",)), ("line_excluded_second", (), (f"d{i}.py:{l2}",)),
